@@ -80,6 +80,31 @@ class Normaliser:
         for n in ast.walk(f.node):
             if isinstance(n, ast.Assign) and len(n.targets) == 1 and isinstance(n.targets[0], ast.Name) and self.assign_count.get(n.targets[0].id) == 1:
                 self.single_def[n.targets[0].id] = n.value
+        # locals bound in several branches to the *same* value up to container conversions (`S_host = S.cpu()` / `S_host = S`), tuple assignments
+        # included, are named by that value as well
+        defs = {}
+        for n in ast.walk(f.node):
+            if isinstance(n, ast.Assign) and len(n.targets) == 1:
+                t, v = n.targets[0], n.value
+                if isinstance(t, ast.Name):
+                    defs.setdefault(t.id, []).append(v)
+                elif isinstance(t, (ast.Tuple, ast.List)) and isinstance(v, (ast.Tuple, ast.List)) and len(t.elts) == len(v.elts):
+                    for x, y in zip(t.elts, v.elts):
+                        if isinstance(x, ast.Name):
+                            defs.setdefault(x.id, []).append(y)
+            elif isinstance(n, (ast.AugAssign, ast.For, ast.comprehension, ast.NamedExpr, ast.With)):
+                for x in ast.walk(n.target if hasattr(n, "target") else n):
+                    if isinstance(x, ast.Name) and isinstance(x.ctx, ast.Store):
+                        defs.setdefault(x.id, []).append(None)
+        params = set(f.params())
+        for nm, vs in defs.items():
+            if nm in self.single_def or nm in params or len(vs) < 2 or any(v is None for v in vs) or len(vs) != self.assign_count.get(nm):
+                continue
+            # a definition that only converts the name itself (`S_norm = S_norm.cpu()`) says nothing new
+            own = [v for v in vs if not (isinstance(strip_wrappers(v), ast.Name) and strip_wrappers(v).id == nm)]
+            texts = {norm(strip_wrappers(v)) for v in own}
+            if len(texts) == 1 and own:
+                self.single_def[nm] = strip_wrappers(own[0])
 
     def canon(self, e, depth=0) -> str:
         """text of an expression with single-assignment locals replaced by their defining expressions"""
@@ -362,6 +387,13 @@ class Normaliser:
                 env[name] = out
             else:
                 env[name] = [atom(f"VAR:{name}@aug")]
+        elif isinstance(s, ast.Assign) and len(s.targets) == 1 and isinstance(s.targets[0], (ast.Tuple, ast.List)) \
+                and isinstance(s.value, (ast.Tuple, ast.List)) and len(s.targets[0].elts) == len(s.value.elts) \
+                and all(isinstance(x, ast.Name) for x in s.targets[0].elts):
+            # a, b = X, Y: element by element, all right-hand sides evaluated first
+            vals = [self.monos(v, env) for v in s.value.elts]
+            for x, v, m in zip(s.targets[0].elts, s.value.elts, vals):
+                env[x.id] = m if m is not None else [atom(f"VAR:{x.id}@{norm(v)[:40]}")]
         elif isinstance(s, (ast.Assign,)):
             for t in s.targets:
                 for n in ast.walk(t):
